@@ -186,6 +186,9 @@ func rssMiB() int64 {
 	return pages * int64(os.Getpagesize()) >> 20
 }
 
+// CPUMillis is the processor time (user + system) this process has consumed, in milliseconds.
+func CPUMillis() int64 { return cpuMillis() }
+
 func cpuMillis() int64 {
 	var ru syscall.Rusage
 	if syscall.Getrusage(syscall.RUSAGE_SELF, &ru) != nil {
